@@ -22,6 +22,7 @@
 (* coverage is measurable):                                                 *)
 (*   FlipByte  Truncate  SpliceToken  SetNumber  SetHex  NestDeep           *)
 (*   MakeCycle  DropKeyword  SwapEntry  RepeatToken  PadTail  InsertKey     *)
+(*   MakeChain  DecoyKeyword                                                *)
 (* and after the parse comes the USE: UseStep lays down which public calls  *)
 (* are made on the parsed value under the same guard, and for a CMap the    *)
 (* codes to decode - the boundaries of the mutated CMap's own ranges.       *)
@@ -195,7 +196,7 @@ PairsToMap(d) == [key \in {d[i][1] : i \in 1..Len(d)} |-> d[CHOOSE i \in 1..Len(
 (* The mutation grammar *)
 
 Kinds == {"FlipByte", "Truncate", "SpliceToken", "SetNumber", "SetHex", "NestDeep", "MakeCycle", "DropKeyword", "SwapEntry",
-          "RepeatToken", "PadTail", "InsertKey"}
+          "RepeatToken", "PadTail", "InsertKey", "MakeChain", "DecoyKeyword"}
 
 D(ds) == [i \in 1..Len(ds) |-> 48 + ds[i]]
 \* -1, 0, 1, 2^31-1, 2^32, 2^63-1, 10^18, 2^64-1 as digit strings
@@ -532,6 +533,106 @@ InsertKey ==
                        /\ adict' = adict
                        /\ Done1(MEntry("InsertKey", key, 0, vb, "bytes." \o val.k))
 
+\* Chains: an incremental update is appended whose objects lead from one to the next through an indirection the loader
+\* follows WHILE PARSING - a stream whose Length is a reference to the next stream (whose Length is a reference to the
+\* next ...), the same through object-stream containers, n empty cross-reference sections chained by Prev, a page tree
+\* n levels deep (Kids down, Parent up).  Cycles are what the `already_seen` sets stop; a chain has none, and what it
+\* costs is depth.  TLC writes the update with ChainModelLen objects (offsets and all, so that the StrictReader reads
+\* it); the worker rebuilds the same update with n objects, n around and far beyond every limit.
+ChainKinds == {"length", "length.objstm", "prev", "kids"}
+ChainLengths == {10, 100, 300, 1000, 3000, 10000, 100000}
+ChainFirst == 70001
+ChainModelLen == 3
+Num(n) == D(NatDigits(n))
+T_obj == <<32, 48, 32, 111, 98, 106, 10>>
+T_endobj == <<10, 101, 110, 100, 111, 98, 106, 10>>
+T_lenref == <<60, 60, 47, 76, 101, 110, 103, 116, 104, 32>>
+T_R == <<32, 48, 32, 82>>
+T_lenstream == <<62, 62, 10, 115, 116, 114, 101, 97, 109, 10, 97, 98, 99, 10, 101, 110, 100, 115, 116, 114, 101, 97, 109>>
+T_len3 == <<60, 60, 47, 76, 101, 110, 103, 116, 104, 32, 51, 62, 62, 10, 115, 116, 114, 101, 97, 109, 10, 97, 98, 99, 10, 101, 110, 100, 115, 116, 114, 101, 97, 109>>
+T_osref == <<60, 60, 47, 84, 121, 112, 101, 47, 79, 98, 106, 83, 116, 109, 47, 78, 32, 49, 47, 70, 105, 114, 115, 116, 32, 52, 47, 76, 101, 110, 103, 116, 104, 32>>
+T_osstream == <<62, 62, 10, 115, 116, 114, 101, 97, 109, 10, 55, 32, 48, 32, 51, 10, 101, 110, 100, 115, 116, 114, 101, 97, 109>>
+T_os5 == <<60, 60, 47, 84, 121, 112, 101, 47, 79, 98, 106, 83, 116, 109, 47, 78, 32, 49, 47, 70, 105, 114, 115, 116, 32, 52, 47, 76, 101, 110, 103, 116, 104, 32, 53, 62, 62, 10, 115, 116, 114, 101, 97, 109, 10, 55, 32, 48, 32, 51, 10, 101, 110, 100, 115, 116, 114, 101, 97, 109>>
+T_catalog == <<60, 60, 47, 84, 121, 112, 101, 47, 67, 97, 116, 97, 108, 111, 103, 47, 80, 97, 103, 101, 115, 32>>
+T_pages == <<60, 60, 47, 84, 121, 112, 101, 47, 80, 97, 103, 101, 115, 47, 67, 111, 117, 110, 116, 32, 49, 47, 75, 105, 100, 115, 91>>
+T_parent == <<47, 80, 97, 114, 101, 110, 116, 32>>
+T_page == <<60, 60, 47, 84, 121, 112, 101, 47, 80, 97, 103, 101, 47, 77, 101, 100, 105, 97, 66, 111, 120, 91, 48, 32, 48, 32, 57, 32, 57, 93, 47, 80, 97, 114, 101, 110, 116, 32>>
+T_close == <<62, 62>>
+T_xref == <<120, 114, 101, 102, 10>>
+T_entry == <<32, 48, 48, 48, 48, 48, 32, 110, 32, 10>>
+T_trailer == <<116, 114, 97, 105, 108, 101, 114, 10, 60, 60, 47, 83, 105, 122, 101, 32>>
+T_prev == <<47, 80, 114, 101, 118, 32>>
+T_root == <<47, 82, 111, 111, 116, 32>>
+T_startxref == <<62, 62, 10, 115, 116, 97, 114, 116, 120, 114, 101, 102, 10>>
+T_eof == <<10, 37, 37, 69, 79, 70, 10>>
+T_emptysect == <<120, 114, 101, 102, 10, 48, 32, 48, 10>>
+
+ChainBody(kind, i, m) ==      \* the i-th of m objects; object numbers ChainFirst .. ChainFirst + m - 1
+    LET nxt == Num(ChainFirst + i) prv == Num(ChainFirst + i - 2) IN
+    IF kind = "length" THEN (IF i = m THEN T_len3 ELSE T_lenref \o nxt \o T_R \o T_lenstream)
+    ELSE IF kind = "length.objstm" THEN (IF i = m THEN T_os5 ELSE T_osref \o nxt \o T_R \o T_osstream)
+    ELSE IF i = 1 THEN T_catalog \o nxt \o T_R \o T_close
+    ELSE IF i = m THEN T_page \o prv \o T_R \o T_close
+    ELSE T_pages \o nxt \o T_R \o <<93>> \o (IF i > 2 THEN T_parent \o prv \o T_R ELSE <<>>) \o T_close
+
+\* the update, to stand at position start (1-based) of a file whose header is at position hdr and whose newest
+\* cross-reference section is at offset prevsx (ASCII digits)
+ChainUpdate(kind, m, start, hdr, prevsx) ==
+    IF kind = "prev" THEN
+        FoldLeft(LAMBDA acc, j :
+                    LET x == start + Len(acc.b) - hdr
+                        sect == T_emptysect \o T_trailer \o Num(ChainFirst) \o T_prev \o acc.p \o T_startxref \o Num(x) \o T_eof
+                    IN [b |-> acc.b \o sect, p |-> Num(x)],
+                 [b |-> <<>>, p |-> prevsx], [j \in 1..m |-> j]).b
+    ELSE LET objs == FoldLeft(LAMBDA acc, i :
+                        [b |-> acc.b \o Num(ChainFirst + i - 1) \o T_obj \o ChainBody(kind, i, m) \o T_endobj,
+                         offs |-> Append(acc.offs, start + Len(acc.b) - hdr)],
+                        [b |-> <<>>, offs |-> <<>>], [i \in 1..m |-> i])
+             x == start + Len(objs.b) - hdr
+         IN objs.b \o T_xref \o Num(ChainFirst) \o <<32>> \o Num(m) \o <<10>>
+            \o Concat([i \in 1..m |-> Pad10(Num(objs.offs[i])) \o T_entry])
+            \o T_trailer \o Num(ChainFirst + m) \o T_prev \o prevsx
+            \o (IF kind = "kids" THEN T_root \o Num(ChainFirst) \o T_R ELSE <<>>)
+            \o T_startxref \o Num(x) \o T_eof
+
+MakeChain ==
+    /\ Applying("MakeChain")
+    /\ \E kind \in {RandomElement(ChainKinds)} : \E n \in {RandomElement(ChainLengths)} :
+       \E hdr \in {FindFrom(out, PctPDF, 1)} :
+       \E sxs \in {AllOcc(out, KwStartxref)} :
+       \E sxd \in {IF sxs = {} THEN 0 ELSE NextDigit(out, MaxOf(sxs) + 9)} :
+       \E vds \in {IF sxd = 0 THEN <<>> ELSE DigitsAt(out, sxd)} :
+          IF ep # "file" \/ hdr = 0 \/ vds = <<>> \/ Len(vds) > 8 THEN Noop("MakeChain")
+          ELSE LET new == <<10>> \o ChainUpdate(kind, ChainModelLen, Len(out) + 2, hdr, vds)
+                   site == [form |-> "chain", s |-> Len(out) + 1, e |-> Len(out) + Len(new), name |-> NmNone, idx |-> 0,
+                            x |-> <<n, hdr, DigVal(vds)>>]
+               IN /\ out' = out \o new
+                  /\ sites' = Append(sites, site)
+                  /\ adict' = adict
+                  /\ Done1(MEntry("MakeChain", NmNone, n, vds, kind))
+
+\* Decoys: words that begin like a keyword ("endstreamX", "endobjs", "%%EOF1") inside the data of a stream - right behind
+\* the stream keyword or right in front of endstream.  The direct Length of that stream is wrong from then on, and
+\* whoever looks for the keyword instead has to step over the decoys.
+DecoyWords == {KwEndstream, KwEndobj, KwStartxref, KwXref, KwTrailer, KwObj, PctPctEOF}
+DataStart(i) ==      \* first data byte of the stream whose keyword starts at i
+    LET q == i + 6 IN
+    IF q + 1 <= Len(out) /\ out[q] = 13 /\ out[q + 1] = 10 THEN q + 2
+    ELSE IF q <= Len(out) /\ out[q] \in {10, 13} THEN q + 1 ELSE q
+DecoyKeyword ==
+    /\ Applying("DecoyKeyword")
+    /\ LET starts == {DataStart(i) : i \in {j \in AllOcc(out, KwStream) : ~(j > 3 /\ SubSeq(out, j - 3, j - 1) = <<101, 110, 100>>)}}
+           ends == AllOcc(out, KwEndstream)
+       IN IF starts \cup ends = {} THEN Noop("DecoyKeyword")
+          ELSE \E p \in {RandomElement(starts \cup ends)} :
+               \E wd \in {IF RandomElement({TRUE, FALSE}) THEN KwEndstream ELSE RandomElement(DecoyWords)} : \E k \in {RandomElement({1, 2, 3, 4})} :
+               \E c \in {RandomElement({88, 115, 49})} :
+                  LET new == Rep(wd \o <<c, 32>>, k) IN
+                  /\ out' = Splice(out, p, p - 1, new)
+                  /\ sites' = ShiftSites(sites, p, p - 1, Len(new), 0)
+                  /\ adict' = adict
+                  /\ Done1(MEntry("DecoyKeyword", NmNone, k, wd \o <<c>>, ""))
+
 DropKeyword ==
     /\ Applying("DropKeyword")
     /\ LET cands == {t \in ToksOf(seed) : Len(t) >= 2 /\ AllOcc(out, t) # {}}
@@ -672,11 +773,13 @@ Applicable(k) ==
     ELSE IF k = "DropKeyword" THEN \E t \in ToksOf(seed) : Len(t) >= 2 /\ AllOcc(out, t) # {}
     ELSE IF k = "SwapEntry" THEN Len(out) >= 8 \/ Cardinality(DictPaths(adict)) >= 2
     ELSE IF k = "InsertKey" THEN adict # <<>> \/ (seed.txt /\ AllOcc(out, <<60, 60>>) # {})
+    ELSE IF k = "MakeChain" THEN ep = "file" /\ AllOcc(out, KwStartxref) # {}
+    ELSE IF k = "DecoyKeyword" THEN ep = "file" /\ AllOcc(out, KwEndstream) # {}
     ELSE TRUE
 
 \* structure-aware kinds are drawn more often than the byte-level ones (those also come in bulk from the harness)
-Weight(k) == IF k = "SetNumber" THEN 4 ELSE IF k = "SetHex" THEN (IF ep = "cmap" THEN 6 ELSE 2) ELSE IF k = "InsertKey" THEN 3
-             ELSE IF k \in {"NestDeep", "MakeCycle", "RepeatToken", "PadTail", "stop"} THEN 2 ELSE 1
+Weight(k) == IF k = "SetNumber" THEN 4 ELSE IF k = "SetHex" THEN (IF ep = "cmap" THEN 6 ELSE 2) ELSE IF k \in {"InsertKey", "MakeChain"} THEN 3
+             ELSE IF k \in {"NestDeep", "MakeCycle", "RepeatToken", "PadTail", "DecoyKeyword", "stop"} THEN 2 ELSE 1
 Lottery(S) == UNION {{<<k, i>> : i \in 1..Weight(k)} : k \in S}
 
 Pick ==
@@ -708,7 +811,7 @@ Reset ==
     /\ UNCHANGED <<pvars_rest, di, fin, ep, seed, lex, base, mk, judge>>
 
 ANext == AProduce \/ AFinish \/ Pick \/ FlipByte \/ Truncate \/ SpliceToken \/ SetNumber \/ SetHex \/ NestDeep
-         \/ MakeCycle \/ DropKeyword \/ SwapEntry \/ RepeatToken \/ PadTail \/ InsertKey \/ EmitCase \/ UseStep \/ Reset
+         \/ MakeCycle \/ DropKeyword \/ SwapEntry \/ RepeatToken \/ PadTail \/ InsertKey \/ MakeChain \/ DecoyKeyword \/ EmitCase \/ UseStep \/ Reset
 
 ASpec == AInit /\ [][ANext]_allvars
 
@@ -743,6 +846,8 @@ AEmitInv ==
                                     use |-> judge.use, probes |-> judge.probes,
                                     ins |-> [i \in 1..Len(SelectSeq(sites, LAMBDA x : x.form = "ins")) |->
                                                  LET x == SelectSeq(sites, LAMBDA y : y.form = "ins")[i] IN <<x.s, x.e>>],
+                                    chains |-> [i \in 1..Len(SelectSeq(sites, LAMBDA x : x.form = "chain")) |->
+                                                 LET x == SelectSeq(sites, LAMBDA y : y.form = "chain")[i] IN <<x.s, x.e>> \o x.x],
                                     reps |-> [i \in 1..Len(SelectSeq(sites, LAMBDA x : x.form = "rep")) |->
                                                  LET x == SelectSeq(sites, LAMBDA y : y.form = "rep")[i] IN <<x.s, x.e>> \o x.x]])>>)
 =============================================================================
